@@ -165,7 +165,7 @@ func rhs(e ast.Expr) string {
 	return "(.other " + q(text(e)) + ")"
 }
 
-func isNil(e ast.Expr) bool { id, ok := strip(e).(*ast.Ident); return ok && id.Name == "nil" }
+func skIsNil(e ast.Expr) bool { id, ok := strip(e).(*ast.Ident); return ok && id.Name == "nil" }
 
 func cond(e ast.Expr) string {
 	e = strip(e)
@@ -182,7 +182,7 @@ func cond(e ast.Expr) string {
 			return "(.or " + cond(x.X) + " " + cond(x.Y) + ")"
 		case token.EQL, token.NEQ:
 			eq := x.Op == token.EQL
-			if isNil(x.Y) {
+			if skIsNil(x.Y) {
 				if id, ok := strip(x.X).(*ast.Ident); ok && id.Name == "err" {
 					if eq {
 						return ".errNil"
@@ -191,7 +191,7 @@ func cond(e ast.Expr) string {
 				}
 				if p, ok := purePath(x.X); ok {
 					if eq {
-						return "(.isNil " + q(p) + ")"
+						return "(.skIsNil " + q(p) + ")"
 					}
 					return "(.notNil " + q(p) + ")"
 				}
@@ -238,9 +238,9 @@ type node struct {
 	live bool
 }
 
-type tr struct{ results []*ast.FieldList }
+type skTr struct{ results []*ast.FieldList }
 
-func (t *tr) numResults() (int, bool) {
+func (t *skTr) numResults() (int, bool) {
 	r := t.results[len(t.results)-1]
 	if r == nil {
 		return 0, false
@@ -275,7 +275,7 @@ func anyLive(ns []node) bool {
 	return false
 }
 
-func (t *tr) stmts(ss []ast.Stmt) []node {
+func (t *skTr) stmts(ss []ast.Stmt) []node {
 	var out []node
 	for _, s := range ss {
 		out = append(out, t.stmt(s)...)
@@ -285,14 +285,14 @@ func (t *tr) stmts(ss []ast.Stmt) []node {
 
 func atom(s string) []node { return []node{{s: s, live: true}} }
 
-func (t *tr) simpleCall(c *ast.CallExpr) []node {
+func (t *skTr) simpleCall(c *ast.CallExpr) []node {
 	if _, a := callKind(c); a != "" {
 		return atom(a)
 	}
 	return nil
 }
 
-func (t *tr) ret(r *ast.ReturnStmt) []node {
+func (t *skTr) ret(r *ast.ReturnStmt) []node {
 	n, isErr := t.numResults()
 	var calls []string
 	for _, x := range r.Results {
@@ -342,7 +342,7 @@ func recvOf(e ast.Expr) (ast.Expr, bool) {
 	return nil, false
 }
 
-func (t *tr) stmt(s ast.Stmt) []node {
+func (t *skTr) stmt(s ast.Stmt) []node {
 	switch x := s.(type) {
 	case nil:
 		return nil
@@ -555,7 +555,7 @@ func genSkeleton(repo string, o out) {
 				keys = append(keys, key)
 				continue
 			}
-			t := &tr{results: []*ast.FieldList{fd.Type.Results}}
+			t := &skTr{results: []*ast.FieldList{fd.Type.Results}}
 			body := t.stmts(fd.Body.List)
 			fmt.Fprintf(&b, "def sk_%s : Sk := .func %s\n\n", leanIdent(key), list(body))
 			keys = append(keys, key)
